@@ -375,6 +375,11 @@ pub(super) fn execute_order_by<'a, S: GraphSnapshot + 'a>(
         if let Err(err) = params.check_timeout("OrderBy.collect") {
             return PlanIterator::Dynamic(Box::new(std::iter::once(Err(err))));
         }
+        // An upstream error must fail the query now: a buffered Err row could be sorted behind
+        // the rows a following LIMIT keeps and vanish.
+        if let Err(err) = item {
+            return PlanIterator::Dynamic(Box::new(std::iter::once(Err(err))));
+        }
         rows.push(item);
         if let Err(err) = params.check_collection_size("OrderBy.collect", rows.len()) {
             return PlanIterator::Dynamic(Box::new(std::iter::once(Err(err))));
